@@ -7,6 +7,7 @@ import (
 	"io"
 	"unicode/utf8"
 
+	"github.com/gobwas/ws/wsflate"
 	"github.com/gobwas/ws/wsutil"
 
 	"verifharness/drive"
@@ -394,6 +395,30 @@ func runMessages(c *mon.C, ms []msg, side ref.Side, nplans int, payloadMarks ...
 				// frames or inside a payload, the consumer calls again - the verdict on the message is the same
 				o.Retry, o.Wrap = true, ""
 				src = &xport.Transient{R: src, At: faultAt[(c.I+ei+len(stream))%len(faultAt)], Err: xport.ErrTimeout}
+			}
+			o.Extended, o.Extensions = false, nil
+			if entry == "reader" && !o.Retry && !o.SkipCheck && (c.I+pi+ei)%5 == 4 {
+				// an endpoint with permessage-deflate negotiated (wsflate.MessageState among the reader's extensions):
+				// the BINARY messages of the sequence arrive with RSV1 on their first frame (what their bytes mean is the
+				// application's business), the text messages do not - and are judged as ever, before and after
+				xf := append([]ref.Frame(nil), frames...)
+				first := true
+				for i := range xf {
+					if ref.IsControl(xf[i].H.Op) {
+						continue
+					}
+					if first && xf[i].H.Op == ref.OpBinary {
+						xf[i].H.Rsv = 4
+					}
+					first = xf[i].H.Fin
+				}
+				xs, _, _ := gen.Encode(xf)
+				src = xport.NewChunker(xs, plan)
+				if o.Wrap != "" {
+					src = drive.WrapSource(src, o.Wrap)
+					o.Wrap = ""
+				}
+				o.Extended, o.Extensions = true, []wsutil.RecvExtension{&wsflate.MessageState{}}
 			}
 			obs := drive.Run(src, o)
 			// compare data messages only (control events are C04's business)
